@@ -5,6 +5,9 @@ import Rustemo.Proofs.GlrEnum
 import Rustemo.Proofs.GlrExample
 import Rustemo.Proofs.GlrCompleteDefs
 import Rustemo.Proofs.GlrPush3
+import Rustemo.Proofs.GlrRun10
+import Rustemo.Proofs.GlrExampleLex
+import Rustemo.Proofs.Viable
 /-!
 # C03 — the GLR forest contains exactly the derivation trees of the input
 
@@ -135,10 +138,10 @@ theorem C03_engine_no_panic_certified (env : Env) (hcert : Cert.glr env.g env.t 
 
 /-! ### (d) completeness and (c) no duplicates: full statements, and the part that is proved -/
 
-/-- **(d) Completeness of the engine, full statement** (NOT proved as a whole).  For a table passing `Cert.glr`
+/-- **(d) Completeness of the engine, full statement** (proved below: `C03_engine_complete`).  For a table passing `Cert.glr`
     and the completeness certificate `Cert.completeRN` (lookahead post-fixpoint: closure and transitions as in
     `Cert.complete`; EVERY right-nulled reduction present for each lookahead of its item; at most one shift per
-    cell), under the token-level lexer hypothesis `LexDet`: if the token kinds are a sentence, the engine does not
+    cell; STOP never shifted), under the token-level lexer hypothesis `LexDet`: if the token kinds are a sentence, the engine does not
     report an error, and every (acyclic: unfolding not cut) forest it returns contains every derivation tree of the
     sentence modulo elision (`Tree.EqElide`). -/
 def C03_engine_complete_statement : Prop :=
@@ -193,7 +196,8 @@ theorem C03_engine_reduction_closure (env : Env) (hcert : Cert.glr env.g env.t =
     token kinds `tok 0 … tok (n-1)` from the start symbol is returned by `getTree` modulo elision (`Tree.EqElide`),
     provided the unfolding is not cut (acyclic SPPF).  Uses the liveness lemma (`live_list`: a state holding an item
     whose rest can start with `a` has an action on `a`, so "no actions ⇒ skip" never drops a needed reduction).
-    What is NOT proved is that the run establishes `LevelDone` for every level (under `LexDet`). -/
+    That the run establishes `LevelDone` for every level under `LexDet` is `Proofs/GlrRun9.lean` (used by
+    `C03_engine_complete`). -/
 theorem C03_engine_complete_from_closure (env : Env) (hcert : Cert.glr env.g env.t = true)
     (hcomp : Cert.completeRN env.g env.t = true) (partialParse : Bool) (fuel : Nat) (r : GlrResult)
     (h : Glr.parse env partialParse fuel = .ok r) (hc : r.droots.hasCut = false)
@@ -210,6 +214,58 @@ theorem C03_engine_complete_from_closure (env : Env) (hcert : Cert.glr env.g env
     accept_of_allDone ⟨tableOk_of_cert env hcert, hC, hW, hr.g, hdone⟩ hstart hstop full hv hy
   obtain ⟨i, hi⟩ := getTree_of_root hr hc (hacc s' v k1 k2 e ed k3 k4 m k6) k7
   exact ⟨i, tr, hi, k8⟩
+
+/-- **(d) Completeness of the engine — PROVED** (the full statement `C03_engine_complete_statement`).
+    For a table passing `Cert.glr` and `Cert.completeRN`, under the token-level lexer hypothesis `LexDet` (tokens
+    `tok 0 … tok (n-1)`, end token `tok n` of kind STOP; a head of level `i` is offered exactly `tok i` iff its state
+    has an action on that kind): if the token kinds are a sentence with derivation tree `full`, then `Glr.parse`
+    (any fuel, partial parse on or off) does NOT return an error, and every result whose SPPF unfolding is not cut
+    (acyclic) returns, for some index, a tree equal to `full` modulo elision.  Hence: every derivation tree of the
+    sentence is in the forest; a fold defect (F25), a missing re-queue, a lost sub-frontier head, a wrong shift merge,
+    an accept that is not recorded or missing right-nulled table entries would each falsify it.
+    Proof: run invariant `RunInv` over the main loop (`Proofs/GlrRun9.lean`): `create_frontier` under `LexDet`
+    (`createFrontier_lexdet`), the closure invariant at the start of the reducer (`start_closure`), reduction closure
+    (`reducerLoop_closureX`) with the book-keeping `RB` (shifts/accepts recorded, lower levels framed), the shifter
+    (`shifter_run`), persistence of finished levels (`LevelDone.frame`), then `accept_of_allDone` + `getTree_of_root`.
+    What it does NOT say: nothing about inputs on which the real lexer is not token-deterministic (`LexDet` is a
+    hypothesis, validated by the correspondence runs, not proved of the lexer model); cyclic SPPFs are excluded;
+    termination (fuel) is not proved (a `timeout` outcome satisfies the statement vacuously). -/
+theorem C03_engine_complete : C03_engine_complete_statement := by
+  intro env hcert hcomp pp fuel n tok P L hL full hv hy
+  obtain ⟨hC, hW⟩ := Cert.completeRN_sound _ _ hcomp
+  have hT := tableOk_of_cert env hcert
+  have hy' : full.yield = kindsOf tok 0 n := by
+    rw [hy]; unfold kindsOf; rw [List.range_eq_range']; rfl
+  have hgood := parse_complete_roots hT hC hW hC.noShiftStop hL full hv hy'
+  constructor
+  · intro e he
+    rw [he] at hgood
+    exact hgood
+  · intro r hr hcut
+    rw [hr] at hgood
+    obtain ⟨m, k, tr, hm, hinu, heq⟩ := hgood
+    obtain ⟨i, hi⟩ := getTree_of_root (Glr.parse_sound env hcert pp fuel r hr) hcut hm hinu
+    exact ⟨i, tr, hi, heq⟩
+
+/-- non-vacuity of `C03_engine_complete`: its hypotheses hold of the example grammar (real LALR_RN table) on the input
+    `aa` — both certificates, and the lexer hypothesis `LexDet` (tokens `a`, `a`, STOP; proved for ALL heads) … -/
+example : LexDet (Glr.Example.env 2) false 9 2 Glr.Example.tok Glr.Example.pos Glr.Example.pos := Glr.Example.lexDet_aa
+
+/-- … so for the derivation `S ⇒ a S A ⇒ a (a S A) A` with every `S`, `A` below EMPTY (one of the two derivations of
+    `aa`; the engine's trees elide the trailing EMPTY children) the theorem yields: no error, and the tree is among
+    the results modulo elision. -/
+def fullAA : Tree :=
+  .node 1 default none (.cons (.leaf 1 default (0, 1) none) (.cons
+    (.node 1 default none (.cons (.leaf 1 default (1, 1) none) (.cons (.node 2 default none .nil)
+      (.cons (.node 4 default none .nil) .nil))))
+    (.cons (.node 4 default none .nil) .nil)))
+
+example : (∀ e, Glr.parse (Glr.Example.env 2) false 9 ≠ .err e) ∧
+    ∀ r, Glr.parse (Glr.Example.env 2) false 9 = .ok r → r.droots.hasCut = false →
+      ∃ i tr, r.getTree i = some tr ∧ Tree.EqElide fullAA tr :=
+  C03_engine_complete (Glr.Example.env 2) (by decide +kernel) (by decide +kernel) false 9 2 Glr.Example.tok
+    Glr.Example.pos Glr.Example.pos Glr.Example.lexDet_aa fullAA
+    (Tree.validB_sound _ _ _ (by decide +kernel)) (by decide +kernel)
 
 /-- non-vacuity of the certificates of the closure theorem: the real LALR_RN table of the example grammar -/
 example : Cert.completeRN Glr.Example.g Glr.Example.t = true := by decide +kernel
